@@ -100,6 +100,176 @@ def _name_is_own_error(tree, var: str, lineno: int, own) -> bool:
     return False
 
 
+HOSTILE_ATOMS = ["²", "①", "१२", "1e999", "-", "1_0", "0x1F", "٣.٥", "1e", "++1", "９", "⅕", "1" * 5000, "nan", "inf", "a{99999999999}", "(" * 3000 + ")" * 3000, "[" * 30, "\\", "(?P<a>x)(?P<a>y)", "x{2,1}", "\\777777"]
+
+
+def escape_probe_texts() -> list[str]:
+    """documents that drive hostile atoms into every conversion the holographic / constraint readers perform"""
+    out = []
+    for a in HOSTILE_ATOMS:
+        q = a.replace("\\", "\\\\").replace('"', '\\"')
+        for body in (f"K::[{a}∧REQ]", f'K::["x"∧REGEX["{q}"]]', f'K::["x"∧REQ∧REGEX["{q}"]→§SELF]', f"K::[1∧RANGE[{a},5]]", f"K::[1∧RANGE[0,{a}]]", f'K::["x"∧MAX_LENGTH[{a}]]', f'K::["x"∧MIN_LENGTH[{a}]]', f"K::[[1,{a}]∧REQ]", f"K::[{a}∧TYPE[NUMBER]]", f'K::["x"∧CONST[{a}]]', f'K::["x"∧ENUM[{a},b]]', f'K::["x"∧DATE∧{a}]', f"META:\n  K::[{a}∧REQ]"):
+            out.append(f"===D===\n{body}\n===END===\n")
+    return out
+
+
+def probe_escapes() -> tuple[bool, str]:
+    """(failed, text): some reader raises a foreign exception on one of the probe documents"""
+    import sys
+
+    from octave_mcp.core.lexer import LexerError, tokenize
+    from octave_mcp.core.parser import ParserError, parse, parse_meta_only, parse_with_warnings
+
+    import warnings
+
+    bad = []
+    for t in escape_probe_texts():
+        for f in (tokenize, parse, parse_with_warnings, parse_meta_only):
+            try:
+                with warnings.catch_warnings():
+                    warnings.simplefilter("ignore")
+                    f(t)
+            except (LexerError, ParserError):
+                pass
+            except RecursionError as e:
+                bad.append(f"{f.__name__}({t[8:70]!r}...) raised RecursionError (limit {sys.getrecursionlimit()})")
+            except Exception as e:  # noqa: BLE001
+                bad.append(f"{f.__name__}({t[8:70]!r}...) raised {type(e).__name__}: {str(e)[:80]}")
+    return bool(bad), "; ".join(sorted(set(bad))[:4]) or f"{len(escape_probe_texts())} hostile documents x 4 readers: own errors only"
+
+
+def replay_hostile(index: int):
+    import warnings
+
+    from octave_mcp.core.lexer import LexerError, tokenize
+    from octave_mcp.core.parser import ParserError, parse, parse_meta_only, parse_with_warnings
+
+    t = escape_probe_texts()[index]
+    bad = []
+    for f in (tokenize, parse, parse_with_warnings, parse_meta_only):
+        try:
+            with warnings.catch_warnings():
+                warnings.simplefilter("ignore")
+                f(t)
+        except (LexerError, ParserError):
+            pass
+        except BaseException as e:  # noqa: BLE001
+            bad.append(f"{f.__name__} raised {type(e).__name__}: {str(e)[:80]}")
+    return bool(bad), "; ".join(bad) or "own errors only"
+
+
+def ob_hostile_atoms(ctx: Ctx) -> Outcome:
+    """C20.B5 (bounded): hostile atoms (non-decimal digits, huge / malformed numbers, regexes that break re.compile) in
+    every conversion position of holographic patterns and constraint arguments, through the four readers"""
+    texts = escape_probe_texts()
+    wits = []
+    for i, t in enumerate(texts):
+        failed, text = replay_hostile(i)
+        if failed:
+            wits.append(Witness(what=f"{t[8:90]!r}: {text}", input={"index": i}, key=f"hostile|{text.split(' raised ')[1].split(':')[0]}|{t[8:14]}", replay={"runner": "props.C20:replay_hostile", "args": {"index": i}}, confirmed=True))
+    extra = dict(bound=f"{len(HOSTILE_ATOMS)} hostile atoms x 13 positions (holographic example, nested example list, REGEX / RANGE / MAX_LENGTH / MIN_LENGTH / TYPE / CONST / ENUM / DATE arguments, with and without target, inside META) = {len(texts)} documents x 4 readers", evaluations=len(texts) * 4, distinct_nontrivial=len(texts), rule="a case is one document through the four readers")
+    if wits:
+        return Outcome.refuted("real readers", wits[:12], **extra)
+    return Outcome.ok("real readers", **extra)
+
+
+def ob_exception_escape(ctx: Ctx) -> Outcome:
+    """C20.F5: the set of exception classes that can leave each reader entry (explicit raises, the library-call table,
+    propagated through the resolved call graph, minus what enclosing handlers catch) holds own error classes only"""
+    from props import escape as E
+
+    try:
+        E.EXEMPTED.clear()
+        esc, H, nfuncs, nsites = E.escape_sets(FUNCS)
+    except Exception as e:  # noqa: BLE001
+        return Outcome.undecided("frames", f"escape analysis could not run: {type(e).__name__}: {e}")
+    if nsites == 0:
+        return Outcome.undecided("frames", "no raising site found in the readers' closure")
+    own = {f"{LEXER}:tokenize": ("LexerError",)}
+    foreign: dict[str, str] = {}
+    for root in FUNCS:
+        allowed = own.get(root, ("LexerError", "ParserError"))
+        for exc, origin in esc.get(root, {}).items():
+            if not any(H.catches([a], exc) for a in allowed):
+                foreign.setdefault(f"{exc} from {origin.split(' <- ')[0]}", f"{exc} can leave {root.split(':')[1]}: {origin}")
+    extra = dict(functions_in_closure=nfuncs, raising_sites=nsites, library_table={k: list(v) for k, v in E.LIB_RAISES.items()}, exempted=sorted(set(E.EXEMPTED)))
+    if not foreign:
+        return Outcome.ok("frames+ast", count=nsites, **extra)
+    failed, text = probe_escapes()
+    wits = [Witness(what=f"{w} — probe: {text[:300]}", key=k[:80], input=k, replay={"runner": "props.C20:probe_escapes", "args": {}}, confirmed=failed, verifier_output=w) for k, w in sorted(foreign.items())]
+    if not failed:
+        # the analysis over-approximates (unknown receivers, library table): without a failing input this is not a violation
+        return Outcome.undecided("frames+ast", "possible foreign exceptions, none reproduced: " + "; ".join(w.what[:200] for w in wits[:3]), count=nsites, **extra)
+    return Outcome.refuted("frames+ast", wits[:6], count=nsites, discharged=max(0, nsites - len(wits)), **extra)
+
+
+def probe_deep_blocks() -> tuple[bool, str]:
+    import sys
+
+    from octave_mcp.core.lexer import LexerError
+    from octave_mcp.core.parser import ParserError, parse, parse_with_warnings
+
+    bad = []
+    for depth in (1200, 3000):
+        t = "===D===\n" + "".join(" " * i + f"B{i}:\n" for i in range(depth)) + " " * depth + "K::1\n===END===\n"
+        for f in (parse, parse_with_warnings):
+            try:
+                f(t)
+            except (LexerError, ParserError):
+                pass
+            except RecursionError:
+                bad.append(f"{f.__name__}: {depth} nested blocks raise RecursionError (limit {sys.getrecursionlimit()})")
+            except Exception as e:  # noqa: BLE001
+                bad.append(f"{f.__name__}: {depth} nested blocks raise {type(e).__name__}")
+    return bool(bad), "; ".join(bad[:3]) or "1200 / 3000 nested blocks: read or refused with the reader's own error"
+
+
+def ob_recursion_cycles(ctx: Ctx) -> Outcome:
+    """C20.F6: every recursive cycle of the readers' call graph other than the bracket descent (cut by the nesting cap,
+    F3) can only be entered below a call site whose `try` catches RecursionError (or Exception) - so runaway depth
+    surfaces as whatever that handler raises, which F5 requires to be the reader's own error"""
+    from props import escape as E
+
+    cut = (f"{PARSER}:Parser.parse_list",)
+    try:
+        comps, graph, pkg = E.recursive_components(FUNCS, cut)
+    except Exception as e:  # noqa: BLE001
+        return Outcome.undecided("frames", f"{type(e).__name__}: {e}")
+    H = E.Hierarchy(pkg)
+    # functions reachable from a root through call sites NOT covered by a RecursionError handler (typed edges only)
+    covered_edges = set()
+    typed = {}
+    for k in graph:
+        fi = pkg.funcs[k]
+        typed[k] = set()
+        for kind, payload, ln, tries in E._sites(fi, pkg):
+            if kind != "call" or payload not in graph:
+                continue
+            caught = any(H.catches(types, "RecursionError") for hs in tries for types, _ in hs)
+            typed[k].add(payload)
+            if caught:
+                covered_edges.add((k, payload))
+    reach = set()
+    stack = [r for r in FUNCS if r in graph]
+    while stack:
+        v = stack.pop()
+        if v in reach:
+            continue
+        reach.add(v)
+        for w in typed.get(v, ()):
+            if (v, w) not in covered_edges and w not in reach:
+                stack.append(w)
+    own_mods = (LEXER, PARSER, "octave_mcp.core.holographic", "octave_mcp.core.constraints")
+    open_comps = [c for c in comps if any(f in reach for f in c) and all(f.split(":")[0] in own_mods for f in c)]
+    n = max(1, len(comps))
+    if not open_comps:
+        return Outcome.ok("frames+ast", count=n, recursive_components=[[f.split(":")[1] for f in c] for c in comps], cut=[c.split(":")[1] for c in cut])
+    problems = [f"recursive cycle {[f.split(':')[1] for f in c]} is reachable from a reader entry without passing a RecursionError handler" for c in open_comps]
+    from verif.common import shape_verdict
+
+    return shape_verdict("frames+ast", problems, probe_deep_blocks, n, {"runner": "props.C20:probe_deep_blocks", "args": {}})
+
+
 READER_STAGES = ("parse", "parse_with_warnings", "tokenize", "parse_meta_only")
 STAGES = ("parse", "parse_with_warnings", "tokenize", "emit", "repair", "project", "compile_gbnf_from_meta", "extract_schema_from_document", "seal_document", "verify_seal", "resolve_hermetic_standard")
 
@@ -244,12 +414,15 @@ def obligations(ctx: Ctx):
         Ob(f"{P}.F1", "F", "every raise in the lexer is LexerError, every raise in the parser is ParserError", FUNCS, ob_raise_sites),
         Ob(f"{P}.F2", "F", "tools: every reading / emitting / compiling stage call lies inside a covering try", ["octave_mcp.mcp.validate:ValidateTool.execute", "octave_mcp.mcp.write:WriteTool.execute", "octave_mcp.mcp.eject:EjectTool.execute", "octave_mcp.mcp.compile_grammar:CompileGrammarTool.execute"], ob_guarded_stages),
         Ob(f"{P}.F3", "F", "bracket recursion is cut by _check_deep_nesting at MAX_NESTING_DEPTH", [f"{PARSER}:Parser.parse_list"], ob_recursion_cut),
+        Ob(f"{P}.F5", "F", "exception escape: only LexerError / ParserError can leave the readers (explicit raises + library-call table, propagated through the call graph, minus enclosing handlers)", FUNCS, ob_exception_escape),
+        Ob(f"{P}.F6", "F", "recursive cycles other than the capped bracket descent are entered only below a RecursionError handler", FUNCS, ob_recursion_cycles),
         Ob(f"{P}.F4", "F", "parser receipts (copied verbatim into tool envelopes) hold only JSON-safe values", [f"{PARSER}:Parser.*"], ob_receipt_values),
     ]
     try:
         from props import C20_b
 
         obs += [
+            Ob(f"{P}.B5", "B", "hostile atoms in every conversion position of holographic patterns / constraint arguments through the four readers", FUNCS, ob_hostile_atoms, timeout=3000),
             Ob(f"{P}.B1", "B", "token sequences over a 30-symbol alphabet through the four readers", FUNCS, C20_b.ob_sequences, timeout=6000),
             Ob(f"{P}.B2", "B", "random Unicode strings and mutated packaged documents through the four readers", FUNCS, C20_b.ob_random, timeout=6000),
             Ob(f"{P}.B3", "B", "all tools x flags on hand-picked, random and mutated contents: envelope with status, json.dumps", FUNCS, C20_b.ob_tools, timeout=6000),
